@@ -23,6 +23,28 @@ TB_STUB = ['kani::stub of bytes::BytesMut::reserve_inner by a function that asse
            'real function is a proof obligation), used to keep the re-allocation path out of the formula']
 
 PROPS = {
+    'C08': dict(
+        level='proof',
+        verus_units=['core_messages'],
+        kani=[dict(package='aldrin-core', injections=[KANI_CORE_BUF], jobs=4)],
+        trusted_base=TB_VERUS + TB_KANI + TB_STUB + [
+            'field-sequence model of MessageSerializer / Message{With,Without}ValueDeserializer (units/_shared/message_model.rs): '
+            'put_*/try_get_* append/pop typed fields, finish()/new() relate a frame to (kind, fields, value); ASSUMED '
+            '(the byte level of the u32 varint and discriminant fields is proved by the C08.msg_* Kani obligations; frame '
+            'header, length prefix and value splitting are NOT proved: BytesMut growth / split_off are out of CBMC\'s reach)',
+            'num_enum derives (IntoPrimitive / TryFromPrimitive) are inverse to each other',
+        ],
+        assumptions=['23 of the 63 message kinds are covered; the other 40 use `.map(Constructor)` on parsed fields, which '
+                     'Verus does not support ("datatype constructor as a function value")'],
+        undecided_clauses=[
+            'byte level of whole frames: 4-byte length prefix equals the frame length, strict parsing of arbitrary bytes',
+            'the 40 kinds with uuid fields (CreateObject, CallFunction, SendItem, ...), the Message dispatcher',
+        ],
+        explanation='per message kind (23 kinds): serialize_message writes the kind, exactly the kind\'s field sequence and '
+                    'the payload unchanged; deserialize_message accepts exactly the frames of that kind whose field sequence '
+                    'is the encoding of some message, with nothing left over, and returns that message with the identical '
+                    'payload (round trip and strictness at the level of fields)',
+    ),
     'C02': dict(
         level='proof',
         verus_units=['broker_serial_map', 'broker_object', 'broker_state', 'broker_handlers_calls'],
